@@ -401,7 +401,7 @@ fn world_models(tier: Tier) -> Vec<(String, Arc<super::stream::StreamModel>, Vec
     if tier.is_quick() {
         vec![(m.name.clone(), m, vec![Plan::Full { depth: 4 }, Plan::Dev { k: 3, depth: 20, default: Arc::new(move |_| cdata) }])]
     } else {
-        vec![(m.name.clone(), m, vec![Plan::Full { depth: 6 }, Plan::Dev { k: 4, depth: 24, default: Arc::new(move |_| cdata) }])]
+        vec![(m.name.clone(), m, vec![Plan::Full { depth: 6 }, Plan::Dev { k: 3, depth: 32, default: Arc::new(move |_| cdata) }])]
     }
 }
 
